@@ -338,6 +338,20 @@ example : runVar (fun _ => .upstream) State.init
      (0, .response, [⟨.proxy, .connect, false, some .proxyAuthorization⟩, ⟨.originViaTunnel, .request, false, none⟩])] := by
   decide +kernel
 
+/-- **"… or other modes".**  `UpstreamAuth` looks at the proxy mode only through `isinstance(mode, UpstreamMode)` and
+    `isinstance(mode, ReverseMode)`: two modes that agree on "is upstream" and "is reverse" get the same decision for every
+    request.  Every mode that is neither (regular, transparent, SOCKS5 — and wireguard, local redirect, DNS, …, which the
+    five-constructor `Mode` represents by `transparent`) therefore behaves like `transparent`: no credential. -/
+theorem decision_depends_only_on_upstream_and_reverse (auth : Bool) (m1 m2 : Mode) (schemeHttp tunneled : Bool)
+    (hu : m1 = .upstream ↔ m2 = .upstream) (hr : m1 = .reverse ↔ m2 = .reverse) :
+    requestheaders auth m1 schemeHttp tunneled = requestheaders auth m2 schemeHttp tunneled := by
+  cases m1 <;> cases m2 <;> simp_all [requestheaders]
+
+/-- a mode that is neither upstream nor reverse never gets a credential from `requestheaders` -/
+theorem other_modes_get_no_credential (auth : Bool) (m : Mode) (schemeHttp tunneled : Bool)
+    (hu : m ≠ .upstream) (hr : m ≠ .reverse) : requestheaders auth m schemeHttp tunneled = none := by
+  cases m <;> simp_all [requestheaders]
+
 /-- **C24 for client replay**: whatever proxy mode the flow was recorded in (it is not even an argument of the model),
     a replayed request carries the credential only to the upstream proxy when the instance RUNS in upstream mode, or to
     the reverse target when it runs in reverse mode and the request is addressed to that target. -/
